@@ -302,5 +302,43 @@ func shapeCases(thorough bool, st *lib.GenStats) []shapeCase {
 			}
 		}
 	}
+	// seqlen: one sequence with exactly L-d, L or L+d ordinates (L a power of two, d the dimension) that
+	// is NOT the last sequence of the document: followed by a hole, a sibling member or a later child of a
+	// collection.  A parser that accumulates ordinates in a buffer of fixed initial capacity behaves
+	// differently exactly when a sequence fills the buffer to the last slot and another sequence follows.
+	pows := []int{8, 16, 32, 64, 128, 256}
+	if thorough {
+		pows = append(pows, 512, 1024, 2048, 4096)
+	}
+	for _, ct := range []geom.CoordinatesType{geom.DimXY, geom.DimXYZ, geom.DimXYM, geom.DimXYZM} {
+		for _, L := range pows {
+			for dk := -1; dk <= 1; dk++ {
+				k := L/ct.Dimension() + dk
+				if k < 4 {
+					continue
+				}
+				for layout := 0; layout < 4; layout++ {
+					m := &leafMaker{ct: ct, st: st}
+					ringK := func() *lib.Node { n := m.line(k - 1); n.C = append(n.C, n.C[0]); return n }
+					var n *lib.Node
+					switch layout {
+					case 0:
+						st.Kinds[lib.KMLine]++
+						n = &lib.Node{Kind: lib.KMLine, CT: ct, Kids: []*lib.Node{m.line(2), m.line(k), m.line(3)}}
+					case 1:
+						st.Kinds[lib.KPoly]++
+						n = &lib.Node{Kind: lib.KPoly, CT: ct, Kids: []*lib.Node{ringK(), m.ring()}}
+					case 2:
+						st.Kinds[lib.KMPoly]++
+						n = &lib.Node{Kind: lib.KMPoly, CT: ct, Kids: []*lib.Node{
+							{Kind: lib.KPoly, CT: ct, Kids: []*lib.Node{m.ring(), ringK()}}, m.poly(1)}}
+					default:
+						n = m.coll(m.line(k), m.point(), m.coll(m.line(k), m.line(2)))
+					}
+					add("seqlen", n)
+				}
+			}
+		}
+	}
 	return out
 }
